@@ -60,4 +60,19 @@ CHECKS.update({
                  "called as Run dispatches them)."),
     },
 })
+CHECKS.update({
+    "C01": {
+        "families": ("processor",),
+        "level": "proof",
+        "technique": "Lean 4 invariant proof over all event interleavings (every broadcast/stored VAA is quorum-signed and verifiable for a learned set), model tied by differential execution of the real processor",
+        "text": ("broadcast_good / store_good prove, by induction over arbitrary event sequences with an explicit invariant and an abstract "
+                 "crypto oracle, that every SignedVAAWithQuorum the processor model broadcasts and every store entry is the encoding of a VAA "
+                 "whose signatures verify (C06.Valid: positional recovery over its own digest, strictly ascending, distinct) for at least the "
+                 "quorum of a guardian set delivered by a set update; assembled VAAs use the snapshot set taken at observation time and name "
+                 "it; inbound VAAs are checked against the current set and never overwrite. The model is replayed against the real handlers "
+                 "on generated scenarios each run and the same Spec is evaluated directly on the bytes the real node published/stored."),
+        "note": ("Trusted: Lean kernel; hypotheses visible in the theorems (sets from chain have distinct keys, <= 256; injected VAAs are "
+                 "governance VAAs); crypto oracle abstract; harness + driver; differential run samples scenarios; badger read-your-writes."),
+    },
+})
 NOT_BUILT = {}
